@@ -17,7 +17,7 @@ from ..sym import Explorer, is_const, show, walk
 from ..wrules import model, w1, w2
 from .c11 import N
 
-TECHNIQUE = "static analysis: serialised layout computed from the binrw declarations vs hand-written reference layouts; read/write stream symmetry; compiler-evaluated constants; operator-tree reconstruction of the checksum loop"
+TECHNIQUE = "static analysis: serialised layout computed from the binrw declarations vs hand-written reference layouts; read/write stream symmetry; compiler-evaluated constants; operator-tree reconstruction of the checksum loop; converter-pair table over the binrw map directives; reference order of the slot enum's compiler-evaluated discriminants"
 TRUSTED = ["model of binrw 0.14 directive semantics in pv/wire.py (cross-checked against sample file sizes 212 / 45221)", "spec/layouts.txt references", "rustc nightly MIR / const-eval"]
 
 TYPES = ["chardat::CharacterData", "chardat::CustomizeData", "dat::DatHeader", "gearsets::GearSlot", "gearsets::GearSet", "gearsets::GearSets"]
